@@ -83,6 +83,12 @@ class GenericValue(Snapshot):
 
             adapter = self.get_adapter(old_value)
             if adapter is not None and hasattr(adapter, "items"):
+                from .undecided_value import has_star_expression
+
+                if has_star_expression(node):
+                    # the values can not be assigned to the elements of the node
+                    node = None
+
                 old_items = adapter.items(old_value, node)
                 new_items = adapter.items(value, node)
                 if len(old_items) != len(new_items):
